@@ -261,7 +261,7 @@ Section OneArrival.
         assert (Ecl : DNSEntry_class_ x = C_CLASS_IN).
         { pose proof Ex as Ex'. apply eq_iff_ident in Ex'. unfold ident_of in Ex'.
           destruct (p_kind x); cbn in Ex'; try discriminate Ex'. inversion Ex' as [[K1 K2 K3 K4]].
-          unfold DNSEntry_class_. exact K3. }
+          unfold DNSEntry_class_. rewrite class_mask_mod. exact K3. }
         rewrite Ecl. exact Fa. }
       rewrite Fl. reflexivity.
     - assert (Hin : in_cache c P = false) by (apply no_entry_not_in_cache; assumption).
@@ -271,3 +271,145 @@ Section OneArrival.
       reflexivity.
   Qed.
 End OneArrival.
+
+Lemma receive_inv c t recs : Inv c -> decoded recs -> Inv (receive c (t, recs)).
+Proof.
+  intros HInv HD. destruct (ingest_total t (map (stamp t) recs) c HInv (stamp_wf t recs HD)) as [c' [E HI]].
+  unfold receive. cbn [fst snd]. rewrite E. exact HI.
+Qed.
+
+(* ------------------------------------------------------------------ *)
+(* 1. one arrival, in terms of `knows` *)
+
+(* 1a. an arrival all of whose copies of the pointer carry a TTL >= ttl > 0 (so: no goodbye for it ANYWHERE in the datagram -
+   the position does not matter, see order_irrelevant_cached below) makes the instance known, until t + 1000 * ttl at least
+   (the 1125 s PTR floor and a larger TTL of the last copy only lengthen that).  Later arrivals: last_arrival_wins. *)
+Theorem arrival_teaches : forall c s t recs ttl,
+  Recv c s -> decoded recs -> (forall r, In r recs -> faithful s r) ->
+  0 < ttl -> announcement s ttl recs ->
+  Recv (receive c (t, recs)) s /\
+  forall t', t' < t + 1000 * ttl -> knows (receive c (t, recs)) t' s = true.
+Proof.
+  intros c s t recs ttl HR HD HF Hpos Ha.
+  destruct (receive_ok c s t recs HR HD HF) as [c' [_ [Erc HR']]].
+  split; [rewrite Erc; exact HR'|]. intros t' Ht'.
+  destruct (recv_announce c s t recs HR HD HF ttl Hpos Ha) as [x [Gx [Cx Tx]]].
+  rewrite knows_entry by (rewrite Erc; exact HR'). rewrite Gx.
+  unfold DNSRecord_is_expired, DNSRecord_created, DNSRecord_ttl, C_EXPIRE_FULL_TIME_MS. rewrite Cx.
+  apply negb_true_iff. apply Z.leb_gt. nia.
+Qed.
+
+(* 1b. an arrival all of whose copies of the pointer have TTL 0 (no positive copy ANYWHERE in the datagram, see
+   order_irrelevant_uncached) makes the instance unknown, at every instant *)
+Theorem goodbye_forgets : forall c s t recs,
+  Recv c s -> decoded recs -> (forall r, In r recs -> faithful s r) ->
+  goodbye s recs ->
+  Recv (receive c (t, recs)) s /\ forall t', knows (receive c (t, recs)) t' s = false.
+Proof.
+  intros c s t recs HR HD HF Hg.
+  destruct (receive_ok c s t recs HR HD HF) as [c' [_ [Erc HR']]].
+  split; [rewrite Erc; exact HR'|]. intro t'.
+  rewrite knows_entry by (rewrite Erc; exact HR').
+  rewrite (recv_goodbye c s t recs HR HD HF Hg). reflexivity.
+Qed.
+
+(* 1c. an arrival without any copy of the pointer - and without a cache-flush record aimed at it - changes nothing, at any instant *)
+Theorem others_do_not_matter : forall c s t recs,
+  Recv c s -> decoded recs -> (forall r, In r recs -> faithful s r) ->
+  unrelated s recs ->
+  Recv (receive c (t, recs)) s /\ forall t', knows (receive c (t, recs)) t' s = knows c t' s.
+Proof.
+  intros c s t recs HR HD HF Hu.
+  destruct (receive_ok c s t recs HR HD HF) as [c' [_ [Erc HR']]].
+  split; [rewrite Erc; exact HR'|]. intro t'.
+  rewrite (knows_pstate _ t' s) by (rewrite Erc; exact HR'). rewrite (knows_pstate c t' s HR).
+  rewrite (recv_unrelated c s t recs HR HD HF Hu). reflexivity.
+Qed.
+
+(* ------------------------------------------------------------------ *)
+(* 2. sequences of arrivals *)
+
+Lemma receive_all_snoc c l a : receive_all c (l ++ [a]) = receive (receive_all c l) a.
+Proof. unfold receive_all. rewrite fold_left_app. reflexivity. Qed.
+
+Lemma last_mention_snoc s l a :
+  last_mention s (l ++ [a]) = if mentions s a then Some a else last_mention s l.
+Proof. unfold last_mention. rewrite rev_app_distr. reflexivity. Qed.
+
+Lemma announcement_announces s ttl recs : 0 < ttl -> announcement s ttl recs -> announces s recs = true.
+Proof.
+  intros Hpos [HL Hall]. unfold listed in HL. apply existsb_exists in HL as [a [Ha Ea]].
+  unfold announces. apply existsb_exists. exists a. split; [exact Ha|]. rewrite Ea.
+  pose proof (Hall a Ha Ea). apply Z.ltb_lt. lia.
+Qed.
+
+Lemma goodbye_announces s recs : goodbye s recs -> announces s recs = false.
+Proof.
+  intros [_ Hall]. unfold announces. apply existsb_false_. intros a Ha.
+  destruct (gen_eq a (dns_pointer s)) eqn:Ea; [|reflexivity]. rewrite (Hall a Ha Ea). reflexivity.
+Qed.
+
+Lemma receive_all_state s ttl : 0 < ttl -> forall l c, Recv c s -> Forall (arrival_ok s ttl) l ->
+  Recv (receive_all c l) s /\
+  match last_mention s l with
+  | None => pstate (receive_all c l) s = pstate c s
+  | Some (t, recs) =>
+      if announces s recs then exists ttl', pstate (receive_all c l) s = Some (t, ttl') /\ ttl <= ttl'
+      else pstate (receive_all c l) s = None
+  end.
+Proof.
+  intros Hpos l. induction l as [|a l IH] using rev_ind; intros c HR Hall.
+  - split; [exact HR|reflexivity].
+  - apply Forall_app in Hall as [Hl Ha]. inversion Ha as [|a' l' Hok _]; subst a' l'. clear Ha.
+    destruct (IH c HR Hl) as [HRl Hst]. clear IH.
+    rewrite receive_all_snoc, last_mention_snoc. destruct a as [t recs].
+    destruct Hok as [HD [HF Hk]]. cbn [snd] in HD, HF, Hk.
+    destruct (receive_ok (receive_all c l) s t recs HRl HD HF) as [c' [_ [Erc HR']]].
+    split; [rewrite Erc; exact HR'|].
+    unfold mentions. cbn [snd].
+    destruct Hk as [Hk|[Hk|Hk]].
+    + rewrite (proj1 Hk), (announcement_announces s ttl recs Hpos Hk).
+      destruct (recv_announce (receive_all c l) s t recs HRl HD HF ttl Hpos Hk) as [x [Gx [Cx Tx]]].
+      exists (p_ttl x). split; [|exact Tx]. unfold pstate. rewrite Gx. cbn [option_map]. unfold lifetime. rewrite Cx. reflexivity.
+    + rewrite (proj1 Hk), (goodbye_announces s recs Hk).
+      unfold pstate. rewrite (recv_goodbye (receive_all c l) s t recs HRl HD HF Hk). reflexivity.
+    + rewrite (proj1 Hk). rewrite (recv_unrelated (receive_all c l) s t recs HRl HD HF Hk). exact Hst.
+Qed.
+
+(* After any sequence of arrivals - announcements of s (every copy of the pointer with TTL >= ttl > 0), goodbyes of s, unrelated
+   ones; in any order of arrival times - the instance is known at t' iff the LAST arrival that mentions s is an announcement
+   (t' before that announcement's pointer expires; if none mentions s nothing has changed). *)
+Theorem last_arrival_wins : forall c s ttl l t',
+  Recv c s -> 0 < ttl -> Forall (arrival_ok s ttl) l ->
+  (forall t recs, last_mention s l = Some (t, recs) -> announces s recs = true -> t' < t + 1000 * ttl) ->
+  knows (receive_all c l) t' s
+  = match last_mention s l with
+    | None => knows c t' s
+    | Some (t, recs) => announces s recs
+    end.
+Proof.
+  intros c s ttl l t' HR Hpos Hall Ht'.
+  destruct (receive_all_state s ttl Hpos l c HR Hall) as [HRl Hst].
+  rewrite (knows_pstate _ t' s HRl).
+  destruct (last_mention s l) as [[t recs]|].
+  - destruct (announces s recs) eqn:An.
+    + destruct Hst as [ttl' [Ep Hle]]. rewrite Ep. pose proof (Ht' t recs eq_refl eq_refl) as Hlt.
+      apply negb_true_iff. apply Z.leb_gt. nia.
+    + rewrite Hst. reflexivity.
+  - rewrite Hst. symmetry. apply knows_pstate. exact HR.
+Qed.
+
+(* the "iff" reading when some arrival mentions s *)
+Corollary last_arrival_wins_iff : forall c s ttl l t' t recs,
+  Recv c s -> 0 < ttl -> Forall (arrival_ok s ttl) l ->
+  last_mention s l = Some (t, recs) -> t' < t + 1000 * ttl ->
+  (knows (receive_all c l) t' s = true <-> announces s recs = true).
+Proof.
+  intros c s ttl l t' t recs HR Hpos Hall Hlm Ht'.
+  rewrite (last_arrival_wins c s ttl l t' HR Hpos Hall).
+  - rewrite Hlm. tauto.
+  - intros t0 recs0 E _. rewrite Hlm in E. inversion E; subst. exact Ht'.
+Qed.
+
+Lemma receive_all_recv c s ttl l : Recv c s -> 0 < ttl -> Forall (arrival_ok s ttl) l -> Recv (receive_all c l) s.
+Proof. intros HR Hpos Hall. apply (receive_all_state s ttl Hpos l c HR Hall). Qed.
